@@ -35,7 +35,7 @@ def c11(prop, tier, replay):
                 print("VIOLATION property=C11 replay=%s" % replay)
                 return 1
             return 0
-        nbase = 48 if quick else 480
+        nbase = 96 if quick else 900
         fens = os.path.join(work, "bases.fen")
         vf.run([bins["rec-board"], "-mode", "fens", "-n", str(nbase), "-seed", str(vf.seed()), "-corpus", CORPUS, "-out", fens], timeout=900)
         roots = os.path.join(work, "bases.ndjson")
@@ -55,7 +55,7 @@ def c11(prop, tier, replay):
                 jobs.append(dict(name="C11-%s-%d" % (mode, i), record=record, args=args))
         # 2. TLC generates the inputs, the replayer probes them, TLC judges the observations
         nsh = vf.NCPU
-        synevery = 4 if quick else 3
+        synevery = 8 if quick else 5
         probes_total = [0]
         crashes = []
 
